@@ -11,18 +11,48 @@ from __future__ import annotations
 import json
 import random
 
-from .. import core, par
+from .. import compile_tie, core, par
 from ..flows import canon_flow, compile_flow_sheet, rows_to_csv
 from ..gen import sheets as G
 
 MANIFEST = dict(
-    text="Proof: Lean theorems validCert_sound / flows_equiv_of_cert (an accepted bisimulation certificate implies equal observation traces for EVERY infinite sequence of contact replies, field/group values, random draws and sub-flow/webhook/airtime outcomes, under every interpretation of the tests). The verified checker is run by the driver on every generated core sheet between the REAL compiler's output and the reference interpretation refFlow (the statement of C02 made executable in Lean; reference_flow_closed: for EVERY sheet it is a closed flow, so no reference path ends for a structural reason). Universal over sheets only per sheet explored (C02_full visible; the Lean compiler model Rpft/Compile.lean is tied to the real parser in C01 but not yet proved equivalent to refFlow).",
+    text="Proof: Lean theorems validCert_sound / flows_equiv_of_cert (an accepted bisimulation certificate implies equal observation traces for EVERY infinite sequence of contact replies, field/group values, random draws and sub-flow/webhook/airtime outcomes, under every interpretation of the tests). The verified checker is run by the driver on every generated core sheet between the REAL compiler's output and the reference interpretation refFlow (the statement of C02 made executable in Lean; reference_flow_closed: for EVERY sheet it is a closed flow, so no reference path ends for a structural reason). Universal over sheets: proved for ALL sheets of the fragment CoreSheet.inFragment (action rows and deciding rows — wait_for_response with or without timeout, split_by_value, split_by_group — with any number of conditional or unconditional edges: chains, trees, joins, last-edge-wins defaults, tests in row order, No Response branches; under the single-meaning conditions edgeOk / distinctTests, each with a kernel-checked negative witness) with the Lean compiler model (tied to the real parser by the exact comparison of C01) in place of the real compiler — C02_fragment / compile_refines_reference: if the model compiles the sheet and the reference exists, the traces agree for every answer stream (lock-step simulation of the compiler machine and the reference's pass 1; traces depend only on the index-resolved abstraction of a flow); the two inputs of the theorem (CoreSheet.toEvent / toRRow of one parsed row) are cross-checked against what the harness sends on every explored sheet. Outside the fragment (C02_fragment_full visible) the claim is decided per explored sheet.",
     ref="§5 C02",
     note="Trusts: Lean kernel; certificate SEARCH is untrusted (only the validated certificate counts); harness canonicaliser of actions (invented uuids dropped) and the row→action/operand reference table (harness/gen/sheets.py reference_row); real RowParser used to parse the CSV rows for both sides. Domain: WFcore ∧ NoopStable sheets (DESIGN §5 C02 notes); known finding F-C02-b outside it.",
     technique="Lean 4 proof of bisimulation-certificate soundness + verified checker run on real compiler output vs executable reference semantics",
 )
 
 LVL = {"catNames": False, "resultName": True}
+
+
+class FragmentGen(G.SheetGen):
+    """Sheets inside the fragment of the universal theorem (Lean: CoreSheet.inFragment, Props/C02.C02_fragment):
+    action rows and wait_for_response / split_by_value / split_by_group rows; action rows are left
+    unconditionally, conditions leaving a wait row name no variable, no edge carries a category name, tests
+    leaving one row are distinct.  Whether a sheet really is in the fragment is decided by the Lean predicate
+    (driver op core.views), not by this generator."""
+
+    FRAG_ROUTERS = ["wait_for_response", "wait_for_response", "split_by_value", "split_by_group"]
+
+    def _edge_for(self, src):
+        if src["type"] in G.ACTION_TYPES:
+            return {"value": "", "variable": "", "type": "", "name": ""}
+        return super()._edge_for(src)
+
+    def _fresh_test(self, src, cond):
+        c = super()._fresh_test(src, cond)
+        c["name"] = ""
+        return c
+
+    def build(self):
+        rng = self.rng
+        self._last_group = None
+        while len(self.rows) < self.n:
+            if not self.nodes or rng.random() < 0.55:
+                self._node_row(rng.choice(G.ACTION_TYPES))
+            else:
+                self._node_row(rng.choice(self.FRAG_ROUTERS))
+        return self.rows
 
 
 def _parser():
@@ -43,7 +73,10 @@ def evaluate(rp, rows, want_noop_stable=True):
         return "unstable", None, {}
     ref = [G.reference_row(p) for p in parsed]
     req = {"op": "flow.refcheck", "rows": ref, "flow": canon_flow(r.doc["flows"][0]), "lvl": LVL}
-    return "ok", req, {"warnings": len(r.warnings)}
+    # the two views of ONE parsed row: what the compiler model reads (row_json) and what the reference reads;
+    # the Lean views CoreSheet.toEvent / toRRow (the inputs of the universal theorem) must be exactly these
+    views = {"op": "core.views", "rows": [{"row": compile_tie.row_json(p), "ref": rr} for p, rr in zip(parsed, ref)]}
+    return "ok", req, {"warnings": len(r.warnings), "views": views}
 
 
 def worker(args):
@@ -51,12 +84,17 @@ def worker(args):
     rng = random.Random(seed)
     rp = _parser()
     drv = core.Driver()
-    reqs, sheets = [], []
-    stats = {"generated": 0, "rejected_by_compiler": 0, "noop_unstable": 0, "with_noop": 0, "with_goto": 0,
+    reqs, sheets, vreqs = [], [], []
+    stats = {"views_agree": 0, "in_proved_fragment": 0, "fragment_stream": 0, "generated": 0, "rejected_by_compiler": 0, "noop_unstable": 0, "with_noop": 0, "with_goto": 0,
              "with_router_row": 0, "with_implicit_router": 0, "rows": 0}
     for _ in range(n):
         noop = rng.random() < 0.4
-        rows = G.gen_core_sheet(rng, rng.randint(2, maxrows), noop=noop)
+        if rng.random() < 0.25:
+            # stream inside the fragment of the universal theorem C02_fragment
+            rows = FragmentGen(rng, rng.randint(2, maxrows)).build()
+            stats["fragment_stream"] += 1
+        else:
+            rows = G.gen_core_sheet(rng, rng.randint(2, maxrows), noop=noop)
         stats["generated"] += 1
         status, req, info = evaluate(rp, rows)
         if status == "rejected":
@@ -72,9 +110,19 @@ def worker(args):
         stats["with_router_row"] += any(t in G.ROUTER_TYPES for t in types)
         stats["with_implicit_router"] += any(r["type"] in G.ACTION_TYPES for r in rows) and any(r.get("condition") for r in rows)
         reqs.append(req)
+        vreqs.append(info["views"])
         sheets.append(rows)
     answers = drv.results(reqs)
+    vanswers = drv.results(vreqs)
     bad = []
+    for rows, va in zip(sheets, vanswers):
+        if "__error__" in va:
+            bad.append({"kind": "driver", "rows": rows, "answer": va})
+        elif not va.get("agree"):
+            bad.append({"kind": "views", "rows": rows, "answer": va})
+        else:
+            stats["views_agree"] += 1
+            stats["in_proved_fragment"] += bool(va.get("inFragment"))
     keys = []
     pairs = 0
     for rows, a in zip(sheets, answers):
@@ -142,7 +190,7 @@ def run(ck: core.Check):
         "equivalence is at observation level {operand, ordered tests with arguments, wait/timeout, result name}; category names are not part of C02's statement",
     ]
     ck.partial_gap = [
-        "C02_full (all sheets) is not proved universally: it would need a proof relating the Lean compiler model (Rpft/Compile.lean, tied to the real parser in C01) to refFlow; it is decided per explored sheet by the verified certificate checker on the real output",
+        "C02_full (all sheets) is proved universally only on the fragment CoreSheet.inFragment (C02_fragment, with the Lean compiler model — tied to the real parser in C01 — in place of the real compiler; a quarter of the explored sheets is generated inside it — FragmentGen — and the evidence counts how many explored sheets lie inside it as decided by the Lean predicate: in_proved_fragment); outside it (C02_fragment_full: conditional edges leaving action rows, split_random, sub-flow/webhook/airtime rows, go_to, hard/loose exits, no_op, explicit category names, node merging, blocks) it is decided per explored sheet by the verified certificate checker on the real output",
         "reference_flow_closed IS proved for every sheet (the reference interpretation is always a closed flow); the per-sheet closedB run on the reference flow is kept as a cross-check of the driver",
     ]
     rp = _parser()
@@ -185,6 +233,9 @@ def run(ck: core.Check):
                      "reference_trace": (ans or b["answer"]).get("traceA"), "compiled_trace": (ans or b["answer"]).get("traceB"),
                      "reference_then": (ans or b["answer"]).get("a"), "compiled_then": (ans or b["answer"]).get("b")},
                 )
+            elif b["kind"] == "views":
+                ck.tie_break("Lean views CoreSheet.toRRow/toEvent differ from the inputs the harness builds from the same parsed row",
+                             {"csv": rows_to_csv(G.HEADERS, b["rows"]), "answer": b["answer"]})
             elif b["kind"] == "ref-not-closed":
                 ck.tie_break("reference flow is not closed (refFlow_closed fails on this sheet)", {"csv": rows_to_csv(G.HEADERS, b["rows"])})
             else:
@@ -192,7 +243,7 @@ def run(ck: core.Check):
     ck.extra["certificate_pairs_validated"] = total_pairs
     ck.extra["traces_validated_against_impl"] = len(ck.nontrivial)
     # strata self-check: a run that never saw a go_to / no_op / implicit router is under-testing
-    for need in ("with_noop", "with_goto", "with_router_row", "with_implicit_router"):
+    for need in ("with_noop", "with_goto", "with_router_row", "with_implicit_router", "in_proved_fragment"):
         if ck.strata.get(need, 0) < 5:
             raise core.Infra(f"generator stratum {need} under-represented: {ck.strata.get(need, 0)}")
 
